@@ -120,15 +120,31 @@ struct Term
     bool eval(int n, int variant)
     {
         const PTC &c = *obj[n];
-        switch (variant % 3)
+        switch (variant % 4)
         {
             case 0:
                 return c.eval();
             case 1:
                 return c();
-            default:
+            case 2:
                 return static_cast<bool>(c);
+            default:
+            {
+                PTC cp(c);  // a copy is the same condition (planners receive and copy them freely)
+                return cp.eval();
+            }
         }
+    }
+    void terminate(int n, int variant)
+    {
+        if (variant % 2)
+        {
+            PTC cp(*obj[n]);
+            cp.terminate();
+        }
+        else
+            obj[n]->terminate();
+        terminated[n] = true;
     }
     void addSol(bool approx)
     {
@@ -305,8 +321,7 @@ struct Driver
         else if (e.a == "Terminate")
         {
             int n = a["n"];
-            term.obj[n]->terminate();
-            term.terminated[n] = true;
+            term.terminate(n, (int)nstep);
         }
         else if (e.a == "Eval")
         {
@@ -337,7 +352,7 @@ struct Driver
             if (term.terminated[n])
             {
                 ++g_stickyChecks;
-                for (int v = 0; v < 3; ++v)
+                for (int v = 0; v < 4; ++v)
                     if (!term.eval((int)n, v))
                         return fail("sticky:" + term.desc[n].k, "a '" + term.desc[n].k +
                                                                     "' node reports false after terminate() was requested");
@@ -420,7 +435,7 @@ static int recordMain(const std::string &out, const std::string &mode, long n, i
             else if (op < 40)
             {
                 int nn = live[rng.below((int)live.size())];
-                term.obj[nn]->terminate();
+                term.terminate(nn, s);
                 tr.emit(json{{"e", "Terminate"}, {"n", nn}});
             }
             else
